@@ -151,3 +151,46 @@ end, function(e) emit("h0", e) return "H0" end))
 	}
 	verifAssert(vhTraceIs(run.trace, want...), "error-handled-by-the-nearest-enclosing-scope-only")
 }
+
+// runtime errors carry the line of the statement that failed, for loads and
+// stores alike, also when earlier call-free statements precede it in the
+// function
+func VerifH_C11_runtime_error_positions() {
+	run := vhNewRun()
+	n := nondetInt64("n")
+	_, err := run.lua(`local n = ...
+local function store_field()
+  local t = nil
+  local x = n + 1
+  local y = x * 2
+  t.k = y
+end
+local function store_nil_key()
+  local t = {}
+  local k = nil
+  local x = n
+  t[k] = x
+end
+local function load_field()
+  local t = nil
+  local x = n + 1
+  return t.k, x
+end
+local function arith()
+  local t = {}
+  local x = n
+  return x + t
+end
+for _, f in ipairs{store_field, store_nil_key, load_field, arith} do
+  local ok, e = pcall(f)
+  emit(ok, type(e), e:match("^corpus:(%d+):"))
+end
+`, vhInt(n))
+	verifAssert(err == nil, "chunk-runs")
+	F, S := rt.BoolValue(false), vhStr("string")
+	verifAssert(vhTraceIs(run.trace,
+		F, S, vhStr("6"),
+		F, S, vhStr("12"),
+		F, S, vhStr("17"),
+		F, S, vhStr("22")), "runtime-errors-name-the-failing-line")
+}
